@@ -103,7 +103,7 @@ REG = {
                 assumptions=BASE_ASSUME + ["extensions are rebuilt from the working tree's .pyx with the compiler directives of setup.py; the "
                                            "git-ignored in-tree .so files are compared as a note only"]),
     "C17": dict(module="vlib.props.native", level="exploration",
-                rule="exhaustive inside the grid: resolutions 1..60 min (12 representative ones in quick) x 4 start offsets x windows up to 3 days: "
+                rule="exhaustive inside the grid: resolutions 1..60 min (all 60 in both tiers) x 4 start offsets (2 in quick) x windows up to 3 days: "
                      "size law, strict monotonicity, index(time(i))=i, floor-inverse at +1s/+res/2/+res-1 for EVERY index, rejection/clamping of "
                      "out-of-range indices and instants, for Scoreboard and Project conversions, both implementations; collectIntervals against a "
                      "brute-force reference on EVERY pattern up to length 9 (quick) / 12 (thorough) x every query window x minimum lengths 0..3",
@@ -156,8 +156,8 @@ REG = {
                      "~20% failing inputs) under strace with delay injection on mutating calls; every failpoint (site x nth x exception type incl. "
                      "SystemExit/KeyboardInterrupt/MemoryError) and SIGINT at varied instants; distinct = distinct orders of (process, create/remove) "
                      "events in the merged traces + (failpoint site, exception, exit status, leftovers?)",
-                quick=dict(rounds=[2, 8, 16, 32], failpoints=48, sigints=10, min_nontrivial=25, failing_share=0.2),
-                thorough=dict(rounds=[2, 8, 32, 64, 128, 128, 32, 16, 8, 100, 48, 24], failpoints=400, sigints=60, min_nontrivial=80, failing_share=0.25),
+                quick=dict(rounds=[2, 8, 16, 32], failpoints=48, sigints=10, badouts=24, min_nontrivial=25, failing_share=0.2),
+                thorough=dict(rounds=[2, 8, 32, 64, 128, 128, 32, 16, 8, 100, 48, 24], failpoints=400, sigints=60, badouts=200, min_nontrivial=80, failing_share=0.25),
                 deciding_monitors=["concurrent-processes", "fs-events", "failpoint-runs", "solitary-runs"],
                 assumptions=["cleanup after SIGTERM/SIGKILL is not demanded (no program can); behaviour with -o is not in the property",
                              "interleavings are sampled (delay injection varies them), not enumerated"]),
